@@ -43,10 +43,14 @@ func callName(fset *token.FileSet, c *ast.CallExpr) string {
 			return "delete-" + text(fset, c.Args[0])
 		}
 		if f.Name == "mProtectCrossPage" {
-			if strings.Contains(text(fset, c), "PROT_WRITE") {
-				return "mprotect-RWX"
+			t, tok := text(fset, c), "mprotect-R"
+			if strings.Contains(t, "PROT_WRITE") {
+				tok += "W"
 			}
-			return "mprotect-RX"
+			if strings.Contains(t, "PROT_EXEC") {
+				tok += "X"
+			}
+			return tok
 		}
 		if calls[f.Name] {
 			return f.Name
